@@ -31,6 +31,24 @@ Conforms(obs, a) ==
         [] a.must = "value"          -> obs.kind = "value" /\ obs.value = a.value
         [] a.must = "value_or_error" -> obs.kind = "error" \/ (obs.kind = "value" /\ obs.value = a.value)
 
+\* ---- the tiling law (size independence).  An operator that treats the rows along the leading axis of some of its inputs
+\* independently maps "these inputs repeated k times along axis 0" to "its results repeated k times along axis 0".  A generator may
+\* flag a case with the input positions S for which the law holds; TLC evaluates the law at k = 2 and k = 3 before the case is
+\* emitted, and the harness then executes the case with a k that takes the operands beyond a million elements - a size no
+\* specification-level evaluation could reach - and compares with the repeated expected result.
+RECURSIVE RepSeq(_, _)
+RepSeq(s, k) == IF k = 0 THEN <<>> ELSE s \o RepSeq(s, k - 1)
+Tile0(t, k) == [t EXCEPT !.shape = [t.shape EXCEPT ![1] = @ * k], !.data = RepSeq(t.data, k)]
+TileIns(inputs, S, k) == [i \in 1..Len(inputs) |-> IF i \in S THEN Tile0(inputs[i], k) ELSE inputs[i]]
+TileLawAt(Sem(_), inputs, S, k) ==
+   LET a == Sem(inputs) b == Sem(TileIns(inputs, S, k)) IN
+   /\ \A i \in S : Len(inputs[i].shape) >= 1
+   /\ a.must = "value" /\ b.must = "value" /\ Len(a.value) = Len(b.value)
+   /\ \A j \in 1..Len(a.value) : Len(a.value[j].shape) >= 1 /\ b.value[j] = Tile0(a.value[j], k)
+TileLaw(Sem(_), inputs, S) == TileLawAt(Sem, inputs, S, 2) /\ TileLawAt(Sem, inputs, S, 3)
+\* the field a flagged case carries: 0-based positions of the inputs that are repeated
+TileField(S) == [pos |-> [i \in 1..Cardinality(S) |-> (CHOOSE f \in [1..Cardinality(S) -> S] : \A a, b \in 1..Cardinality(S) : a < b => f[a] < f[b])[i] - 1]]
+
 Known(id, kind, vals) == [id |-> id, out |-> [kind |-> kind, value |-> vals]]
 
 =============================================================================
